@@ -387,6 +387,10 @@ def run(chk: Check) -> int:
     base = "MC_Metrics_quick.cfg" if quick else "MC_Metrics_thorough.cfg"
     parts = [(i, 0) for i in range(1, 6)] if quick else [(i, j) for i in range(1, 6) for j in range(1, 6)]
     pool = ProcessPoolExecutor(max_workers=max(2, ncpu - 2))
+    # Fork every replay worker NOW (the fork start method launches all of them at the first submit), before any thread starts
+    # a TLC subprocess: a worker forked while another thread is inside subprocess.Popen inherits that call's exec-status pipe,
+    # Popen never returns and nobody drains TLC's stdout (deadlock observed once).
+    pool.submit(int).result()
     futures = []
     ncases = 0
 
